@@ -1,0 +1,8 @@
+//go:build verif
+
+package btree
+
+// VerifOrder returns the order (maximum number of children) of the tree.
+func (tree *Tree[K, V]) VerifOrder() int {
+	return tree.m
+}
